@@ -224,7 +224,9 @@ func snapTreeTo(sb *strings.Builder, t *Tree) {
 }
 
 // isSNaN32: a float32 bit pattern that is a signaling NaN.
-func isSNaN32(b uint32) bool { return b&0x7f800000 == 0x7f800000 && b&0x007fffff != 0 && b&0x00400000 == 0 }
+func isSNaN32(b uint32) bool {
+	return b&0x7f800000 == 0x7f800000 && b&0x007fffff != 0 && b&0x00400000 == 0
+}
 
 // mapFloat32 applies f to every float32 value of the tree (descriptor-directed); returns the count changed.
 func mapFloat32(md protoreflect.MessageDescriptor, t *Tree, xf extFinder, f func(uint32) uint32) int {
